@@ -557,6 +557,14 @@ func TestC09(t *testing.T) {
 	for _, c := range []RCase{
 		{RetransMs: 30, MaxRetrans: 3, Sess: []int{0, 2}, Answer: []bool{false, false}, BusyPct: 20, FailPct: 130},
 		{RetransMs: 60, MaxRetrans: 2, Sess: []int{1}, Answer: []bool{false}, BusyPct: 20, FailPct: 250},
+		// five requests out, the loop busy past their timers, three answered meanwhile: when the loop comes back it finds
+		// responses and expiries side by side and serves them in an order of its choosing (six times: six orders)
+		{RetransMs: 30, MaxRetrans: 1, Sess: []int{0, 1, 2, 0, 1}, Answer: []bool{true, false, true, false, true}, BusyPct: 150},
+		{RetransMs: 30, MaxRetrans: 1, Sess: []int{0, 1, 2, 0, 1}, Answer: []bool{false, true, false, true, true}, BusyPct: 150},
+		{RetransMs: 30, MaxRetrans: 2, Sess: []int{2, 1, 0, 2, 1}, Answer: []bool{true, true, false, false, true}, BusyPct: 250},
+		{RetransMs: 30, MaxRetrans: 1, Sess: []int{0, 1, 2, 0, 1}, Answer: []bool{true, false, true, false, true}, BusyPct: 150},
+		{RetransMs: 30, MaxRetrans: 1, Sess: []int{0, 1, 2, 0, 1}, Answer: []bool{false, true, false, true, true}, BusyPct: 150},
+		{RetransMs: 30, MaxRetrans: 2, Sess: []int{2, 1, 0, 2, 1}, Answer: []bool{true, true, false, false, true}, BusyPct: 250},
 	} {
 		v, s := runReal(c)
 		accountReal(c, s)
